@@ -2,7 +2,7 @@
     and followed by [Print Assumptions]. *)
 From Coq Require Import List ZArith NArith Bool Permutation Sorted.
 From Kardia Require Import Base.Int64 C12.Model C12.Spec C12.ProofsSort C12.ProofsUpdate C12.ProofsSpec
-     C12.ProofsFair C12.ProofsRefine C12.ProofsUpdate2 C12.ProofsUpdate3 C12.ProofsUpdate4 C12.ProofsUpdate5 C12.ProofsReport C12.ProofsAnyTimes C12.ProofsChain C12.ProofsExamples C12.Open Generated.C12Facts.
+     C12.ProofsFair C12.ProofsRefine C12.ProofsUpdate2 C12.ProofsUpdate3 C12.ProofsUpdate4 C12.ProofsUpdate5 C12.ProofsReport C12.ProofsAnyTimes C12.ProofsChain C12.SourceTie C12.ProofsExamples C12.Open Generated.C12Facts.
 Import ListNotations.
 Local Open Scope Z_scope.
 
@@ -434,3 +434,12 @@ Theorem C12_increment_any_times_partial :
       bounded (round_bound (vs_vals s)) (vs_vals s') /\ bounded B0 (vs_vals s').
 Proof. exact increment_refines_any_times. Qed.
 Print Assumptions C12_increment_any_times_partial.
+
+(** source tie: the model's safe arithmetic, cap tests, window test, newcomer priority, delta and
+    running-total arithmetic, per-entry power checks, comparison orders, the report's
+    "!found || oldPower != val.VotingPower" test and updateState's bookkeeping ARE the expressions
+    that /verif/go2coq regenerates from the Go sources into Generated/C12Source.v on every check
+    (statement in C12/SourceTie.v) *)
+Theorem C12_source_tie : C12_source_tie_statement.
+Proof. exact C12_source_tie_proof. Qed.
+Print Assumptions C12_source_tie.
